@@ -222,7 +222,10 @@ func refAtom(v *val, c cfg, m *mutant, inPrettyList bool) string {
 	case kDouble:
 		return strings.Replace(strconv.FormatFloat(v.f, 'e', -1, 64), "e", "d", 1)
 	case kLong:
-		return strings.Replace(v.lf.Text('e', -1), "e", "L", 1)
+		// all the digits the precision carries; the reference reader sizes the
+		// precision from the digit count
+		digits := int(float64(v.lf.Prec())*0.30103) + 3
+		return strings.Replace(v.lf.Text('e', digits), "e", "L", 1)
 	case kStr:
 		s := v.s
 		if m.capitalizeAll && c.cas != 'd' {
